@@ -513,6 +513,13 @@ func cmdCheck(args []string) int {
 	}
 	wg.Wait()
 
+	if os.Getenv("GOSMT_DEBUG_WITNESS") != "" {
+		for _, r := range results {
+			if r != nil && r.Witness != nil && r.Witness.Expect != nil {
+				fmt.Fprintf(os.Stderr, "WITNESS %s %s expect observes=%v failed=%v\n", r.Unit, caseStr(r.Cases), r.Witness.Expect.Observes, r.Witness.Expect.Failed)
+			}
+		}
+	}
 	// native validation of witnesses and replay of counterexamples
 	nat := &nativeRunner{sp: sp, propDir: propDir}
 	exit := 0
